@@ -797,12 +797,18 @@ def _writer_unique_on_what_is_written(case):
     return None if len(back) == len(written) else {"expected": "%d rows read back" % len(written), "observed": back}
 
 
+def unit_writer_file_sweep():
+    def run(ctx):
+        f = WriterFileOracle()
+        return [sweep("C14/sweep/write to a file in the CID's encoding, read the file back", f.cases(ctx), f.check, "bounded", f.bound, describe=f.describe, function="validio.Writer + rowio writers + validio.rows", unit="C14.files")]
+    return NativeUnit("C14.files", "bounded sweep: writer bound to a path in the CID's encoding, unencodable rows leave no trace, the file read back through the validating reader", ["C14", "C12", "C13"], run, kind="bounded")
+
+
 def unit_writer_sweep():
     def run(ctx):
-        o = WriterOracle(); f = WriterFileOracle()
+        o = WriterOracle()
         limit = 10**9 if ctx.thorough else o.quick_cases
         return [sweep("C14/sweep/write then read back", itertools.islice(o.cases(ctx), limit), o.check, "bounded", o.bound, describe=o.describe, function="validio.Writer + rowio writers + validio.rows", unit="C14.sweep"),
-                sweep("C14/sweep/write to a file in the CID's encoding, read the file back", f.cases(ctx), f.check, "bounded", f.bound, describe=f.describe, function="validio.Writer + rowio writers + validio.rows", unit="C14.sweep"),
                 sweep("C14/sweep/uniqueness is judged on the values as they are written (fixed width: padded)", [c for n_ in (2, 3) for c in itertools.product(["ab", "ab ", "a", "a  ", "abc", ""], repeat=n_)], _writer_unique_on_what_is_written, "bounded",
                       "all sequences of 2-3 values over {ab, 'ab ', a, 'a  ', abc, ''} in a 3-wide IsUnique field", describe=lambda c: {"values": list(c)}, function="validio.Writer.write_row", unit="C14.sweep"),
                 sweep("C14/sweep/a failing end-of-data check at close() still leaves the accepted rows in a closed file", ["delimited", "fixed"], _writer_close_with_failing_end_check, "bounded", "2 formats, 3 rows, DistinctCount failing at close",
